@@ -1,6 +1,8 @@
 package rules
 
 import (
+	"go/types"
+	"sort"
 	"fmt"
 	"go/token"
 	"strings"
@@ -140,14 +142,21 @@ func runC17(c *core.Ctx) {
 					} else {
 						thr, cnt = b.Y, b.X
 					}
-					okT := false
+					// every threshold that can reach the comparison (normal and fallback) is computed from the group size
+					okT, nThr := true, 0
 					for v := range core.BackwardReach(thr) {
 						if call, ok := v.(*ssa.Call); ok {
 							d := core.CallDesc(&call.Call)
-							if (d.Name == "GetPBFTThreshold" || d.Name == "GetPBFTFallbackThreshold") && len(call.Call.Args) == 1 && core.ExprKey(call.Call.Args[0]) == sizeKey {
-								okT = true
+							if (d.Name == "GetPBFTThreshold" || d.Name == "GetPBFTFallbackThreshold") && len(call.Call.Args) == 1 {
+								nThr++
+								if core.ExprKey(call.Call.Args[0]) != sizeKey {
+									okT = false
+								}
 							}
 						}
+					}
+					if nThr == 0 {
+						okT = false
 					}
 					if okT {
 						thrOK = true
@@ -216,7 +225,68 @@ func runC17(c *core.Ctx) {
 			ok, detail = false, "unrecognised increment "+core.ExprKey(t.term)
 		}
 	}
-	c.Check(ok, "C17/count-bounded-by-group", "HeaderSigVerifier.verifyConsensusSize", vcs.Pos(), "the counted value only counts bits that designate a group member", detail)
+	// the construct carries a fingerprint of WHAT is accumulated (term and the collection its loop ranges
+	// over), so that a listed finding about one way of counting does not hide another way of miscounting
+	var fp []string
+	for _, t := range incs {
+		src := "?"
+		if l := core.InnermostLoop(vcs, t.at.Block()); l != nil {
+			if rs := l.RangeSource(); rs != nil {
+				src = "range " + core.ExprKey(rs)
+			} else {
+				src = "loop"
+			}
+			// every element once: a range loop, or a counter that starts at 0 and advances by one
+			if rs := l.RangeSource(); rs == nil {
+				ok, detail = false, "the signer count is accumulated in a loop that is not a range over the bitmap: elements can be skipped or visited twice"
+			} else {
+				for _, in := range l.Header.Instrs {
+					ph, isPhi := in.(*ssa.Phi)
+					if !isPhi {
+						continue
+					}
+					if b, isB := ph.Type().Underlying().(*types.Basic); !isB || b.Info()&types.IsInteger == 0 {
+						continue
+					}
+					isCounter := false
+					for i, p := range l.Header.Preds {
+						if l.Body[p] {
+							if add, isAdd := ph.Edges[i].(*ssa.BinOp); isAdd && add.Op == token.ADD && add.X == ssa.Value(ph) {
+								if n, isC := core.ConstInt(add.Y); isC && n == 1 {
+									isCounter = true
+								}
+							}
+						}
+					}
+					if !isCounter || !core.BackwardReachPure(t.term)[ph] {
+						continue
+					}
+					for i, p := range l.Header.Preds {
+						if l.Body[p] {
+							continue
+						}
+						if n, isC := core.ConstInt(ph.Edges[i]); !isC || (n != 0 && n != -1) {
+							ok, detail = false, "the loop that accumulates "+core.ExprKey(t.term)+" does not start at the first element ("+core.ExprKey(ph.Edges[i])+"): part of the bitmap is skipped or, together with another loop, counted twice"
+						}
+					}
+				}
+			}
+		}
+		termKey := "?"
+		switch x := t.term.(type) {
+		case *ssa.Call:
+			termKey = core.CallDesc(&x.Call).Name
+		case *ssa.Convert:
+			if call, isCall := x.X.(*ssa.Call); isCall {
+				termKey = core.CallDesc(&call.Call).Name
+			}
+		case *ssa.Const:
+			termKey = "const"
+		}
+		fp = append(fp, termKey+" over "+src)
+	}
+	sort.Strings(fp)
+	c.Check(ok, "C17/count-bounded-by-group", "HeaderSigVerifier.verifyConsensusSize["+strings.Join(fp, "; ")+"]", vcs.Pos(), "the counted value only counts bits that designate a group member", detail)
 }
 
 type accTerm struct {
